@@ -23,6 +23,7 @@ const (
 	fnSeq     = "CorridorSequence"
 	fnFit     = "FitClearanceAroundExtendedSpatialID"
 	fnFitSeq  = "FitSequence"
+	fnFitLoop = "FitLoop"
 	outOfDom  = "out-of-domain"
 	earthA    = 6378137.0
 	altLimit  = 33554432.0
@@ -308,6 +309,19 @@ func oracles(r *run.Runner) {
 			transform.FitClearanceAroundExtendedSpatialID(EID(dz, 1, 200, dz, 0), dc)
 			H, V, err := transform.FitClearanceAroundExtendedSpatialID(id, c)
 			return w.WithErr(w.L(w.I(H), w.I(V)), err)
+		})
+	}
+	// the distance the fit measures between a voxel and a probed voxel (vdist.go): [id; probed] -> distance
+	r.Oracles["vdist"] = func(a []w.Val) w.Val {
+		if !shapesOK(a, "ss") {
+			return w.Panic{}
+		}
+		return limited(func() w.Val {
+			d, ok := vdist(w.AsStr(a[0]), w.AsStr(a[1]))
+			if !ok {
+				return w.Panic{}
+			}
+			return w.F(d)
 		})
 	}
 	// independent distance reference (geom.go): [p1; p2; radius; ids] -> [[lower; upper]; ...]
@@ -805,6 +819,89 @@ func genFitSequence(g *Gen) ([]fitc, string) {
 	return []fitc{f, f, d, f}, "identical+clearance-change"
 }
 
+// genFitLoop: clearances at and next to the distances the loop actually probes (k cell widths +- epsilon, k = 0..3), so that the
+// stop condition `clearance > dist` is exercised at equality; voxels at low and high latitude, first / last row and column,
+// vertical zoom much coarser or finer than the horizontal one
+func genFitLoop(g *Gen) (fitc, []string, bool) {
+	for try := 0; try < 50; try++ {
+		h := genH(g)
+		if h < 6 {
+			h = 6 + g.Int63n(25)
+		}
+		n := int64(1) << uint(h)
+		lat := g.R.Float64()*168 - 84
+		ltag := "lat=mid"
+		switch g.Intn(4) {
+		case 0:
+			lat, ltag = (g.R.Float64()*2-1)*5, "lat=low"
+		case 1:
+			lat, ltag = sgn(g)*(70+g.R.Float64()*15), "lat=high"
+		}
+		x, y := g.Int63n(n), int64(rowOf(lat, h))
+		if y < 0 {
+			y = 0
+		}
+		if y >= n {
+			y = n - 1
+		}
+		switch g.Intn(14) {
+		case 0:
+			y, ltag = 0, "row=first"
+		case 1:
+			y, ltag = n-1, "row=last"
+		case 2:
+			x = 0
+		case 3:
+			x = n - 1
+		}
+		v, vtag := g.Zoom(), "v~h"
+		switch g.Intn(3) {
+		case 0:
+			v, vtag = g.Int63n(4), "v<<h"
+			if h < 12 {
+				v, vtag = 30+g.Int63n(6), "v>>h"
+			}
+		case 1:
+			v, vtag = 32+g.Int63n(4), "v>>h"
+			if h > 26 {
+				v, vtag = g.Int63n(4), "v<<h"
+			}
+		}
+		id := EID(h, x, y, v, g.VIndex(v))
+		k := 1 + g.Int63n(4) // the probe whose distance the clearance is placed at: 1 (distance 0) .. 4 (about 3 widths)
+		probed := EID(h, (x+k)%n, y, v, 0)
+		axis := "x"
+		if g.Chance(0.4) {
+			probed, axis = EID(h, x, (y+k)%n, v, 0), "y"
+		}
+		d, ok := vdist(id, probed)
+		if !ok {
+			continue
+		}
+		c, ctag := d, "c=dist"
+		switch g.Intn(6) {
+		case 0:
+			c, ctag = math.Nextafter(d, math.Inf(1)), "c=dist+ulp"
+		case 1:
+			c, ctag = math.Nextafter(d, math.Inf(-1)), "c=dist-ulp"
+		case 2:
+			c, ctag = d*(1+1e-9), "c=dist+eps"
+		case 3:
+			c, ctag = d*(1-1e-9), "c=dist-eps"
+		case 4:
+			c, ctag = d*(0.55+0.9*g.R.Float64()), "c=between"
+		}
+		if k == 1 && g.Chance(0.5) {
+			c, ctag = g.PickF(0, math.Copysign(0, -1), 5e-324, 1e-12, ownWidth(h, x, y)*0.5), "c=0-or-tiny"
+		}
+		if math.IsNaN(c) || c < 0 || !fitInDomain(id, c) {
+			continue
+		}
+		return fitc{id, c}, []string{hTag(h), ltag, vtag, Tag("probe=%s%d", axis, k), ctag}, false
+	}
+	return fitc{"20/931451/412943/20/0", 45}, []string{"fallback"}, false
+}
+
 func bucket(n int) int {
 	for _, b := range []int{0, 1, 2, 5, 10, 20, 50, 100, 200, 500, 1000, 2000, 5000} {
 		if n <= b {
@@ -821,7 +918,7 @@ func sizeTag(r *run.Runner, vd run.Verdict) {
 }
 
 func init() {
-	Scale["C14"] = 700
+	Scale["C14"] = 800
 	Registry["C14"] = func(r *run.Runner, g *Gen, n int) {
 		oracles(r)
 		r.Register(
@@ -834,6 +931,7 @@ func init() {
 			&run.Fn{Name: fnSeq, Invoke: seqOf(guarded("ppiifb", callCorridor)), Timeout: 30 * time.Second},
 			&run.Fn{Name: fnFit, Invoke: guarded("sf", callFit)},
 			&run.Fn{Name: fnFitSeq, Invoke: seqOf(guarded("sf", callFit)), Timeout: 30 * time.Second},
+			&run.Fn{Name: fnFitLoop, Invoke: guarded("sf", callFit)},
 		)
 		if n == 0 {
 			return
@@ -871,23 +969,33 @@ func init() {
 		r.Run(run.Case{Prop: "C14", Fn: fnFit, Tags: []string{"fixed-witness"}, Trivial: true, Args: fitArgs(fitc{"a/0/0/0/0", 0})})
 		for i := 0; i < n && !r.Stopped(); i++ {
 			switch k := g.Intn(100); {
-			case k < 44:
+			case k < 40:
 				c := mustCorr(g)
 				if g.Chance(0.07) {
 					c = spoil(g, c)
 				}
 				vd := r.Run(run.Case{Prop: "C14", Fn: fnCorr, Tags: append([]string{fnCorr, c.mode}, c.tags...), Trivial: c.triv, Args: c.args()})
 				sizeTag(r, vd)
-			case k < 60:
+			case k < 54:
 				c := mustCorr(g)
 				if g.Chance(0.05) {
 					c = spoil(g, c)
 				}
 				r.Run(run.Case{Prop: "C14", Fn: fnPair, Tags: append([]string{fnPair}, c.tags...), Trivial: c.triv, Args: c.args()[:5]})
-			case k < 72:
+			case k < 65:
 				cs, kind := genSequence(g)
 				r.Run(run.Case{Prop: "C14", Fn: fnSeq, Tags: []string{fnSeq, "seq=" + kind, hTag(cs[0].h)}, Args: seqArgs(cs)})
-			case k < 90:
+			case k < 82:
+				f, tags, triv := genFitLoop(g)
+				if g.Chance(0.08) { // error paths go through the same entry
+					f, tags, triv = genFit(g)
+					if !fitInDomain(f.id, f.c) {
+						i--
+						continue
+					}
+				}
+				r.Run(run.Case{Prop: "C14", Fn: fnFitLoop, Tags: append([]string{fnFitLoop}, tags...), Trivial: triv, Args: fitArgs(f)})
+			case k < 92:
 				f, tags, triv := genFit(g)
 				if !fitInDomain(f.id, f.c) {
 					i--
